@@ -59,6 +59,21 @@ Theorem C19_tick : forall s b index c s' b' k,
 Proof. exact consume_tick_formula. Qed.
 Print Assumptions C19_tick.
 
+(* The formula clause of the property is FALSE beyond the range of time.Duration (finding F17): with
+   more than 2^63-1 ns (about 292.47 years) between the start of tick 0 and a commit the tick is
+   not the number of elapsed periods.  First commit 1970-01-01, second 2300-01-01 (committer times
+   monotone), 24 h ticks: 120530 periods have elapsed, the tick is 106751. *)
+Theorem C19_tick_refuted_beyond_292_years :
+  exists cfg c0 c1 s' k,
+    let d := initialize (configure cfg) in
+    let t0 := spec_t0 (c_when c0) d in
+    0 < d /\ c_when c0 <= c_when c1 /\
+    run (init_sys cfg) [OConsume 0 0 c0; OConsume 0 1 c1] = (s', [RTick 0; RTick k]) /\
+    k = 106751 /\ Z.max 0 ((c_when c1 - t0) / d) = 120530 /\
+    in_range t0 (c_when c1) = false.
+Proof. exact tick_refuted_beyond_292_years. Qed.
+Print Assumptions C19_tick_refuted_beyond_292_years.
+
 (* whole periods between the start of the first commit's period and t = difference of period numbers *)
 Theorem C19_periods : forall t first d, 0 < d -> (t - spec_t0 first d) / d = t / d - first / d.
 Proof. exact periods_between. Qed.
@@ -134,6 +149,13 @@ Theorem C19_tick_chain_unfold : forall t0 d p c k l,
   tick_chain t0 d k l = true.
 Proof. exact tick_chain_cons. Qed.
 Print Assumptions C19_tick_chain_unfold.
+
+(* the replay judges every tick against the exact formula max(prev, floor((t - t0)/d)) computed with
+   unbounded integers ([chain_verdicts]); inside the range of time.Duration the model passes it *)
+Theorem C19_tick_history_exact : forall t0 d l p, tick_chain t0 d p l = true ->
+  Forall (fun v => snd v = true -> fst v = true) (chain_verdicts t0 d p l).
+Proof. exact chain_verdicts_in_range. Qed.
+Print Assumptions C19_tick_history_exact.
 
 (* committer times that never decrease along the history of a branch and are not before the first
    analysed commit: nothing is raised, the tick is a function of the commit alone *)
